@@ -42,21 +42,23 @@ PROPS = {
     "C02": dict(
         modules=["Copia.Props.C02"], namespaces=["Copia.C02"], runner="bb", bb_module="bb_bisync",
         assumptions=_BI_ASSUME, trusted_base=_BI_TB,
-        level_text="Kernel-checked decision-level theorem for every (a, b, base) triple: a non-conflict action only ever discards a version that equals the base while the other side differs from it "
-                   "(never a side of a divergent edit, a modified survivor, or a one-sided creation). The whole-run lift holds only under NoNameClash; without it the statement is false of model and code (D10, known finding). "
-                   "Whole runs are tied to the real binary: every real `copia bisync` of generated histories is replayed in the executable Lean model from the observed pre-state (trees, archive) and compared "
+        level_text="Kernel-checked WHOLE-RUN theorem `no_version_lost` for the model of `copia bisync` (scan, reconcile against the trusted archive, apply the whole plan to the live trees), for every pair of trees and every archive: "
+                   "under NoNameClash the run never stops on an I/O error and every content either side held before is held by BOTH sides afterwards, unless it was exactly the recorded base at its path and the other side had changed or deleted it. "
+                   "`path_safe` is the decision-level core for every (a, b, base) triple. Without NoNameClash the statement is false of model and code: `clash_loses` is the kernel-checked witness (D10, known finding). "
+                   "Tie: every real `copia bisync` of generated histories is replayed in the executable Lean model from the observed pre-state (trees, archive) and compared "
                    "(status, plan, trees, archive); the version-survival oracle runs on the real before/after trees with the true last-synced state tracked by the harness.",
-        level_note="Partial: theorem at decision level + executable whole-run model validated against the binary; trusts the model, the harness, the black-box sandbox (HOME/HOSTNAME pinned).",
-        technique="Lean 4 proof (case analysis over the reconcile table) + executable-model correspondence on histories + version-survival oracle",
+        level_note="Trusts Lean's kernel, the hand-written model of bidir.rs (validated against the binary on every run), the harness and the black-box sandbox (HOME/HOSTNAME pinned). The theorem's NoNameClash hypothesis is exactly the boundary of D10; files are regular files (no symlinks/dirs as entries).",
+        technique="Lean 4 proof (run invariant by induction over the plan, case analysis over the reconcile table) + executable-model correspondence on histories + version-survival oracle",
     ),
     "C06": dict(
         modules=["Copia.Props.C06"], namespaces=["Copia.C06"], runner="bb", bb_module="bb_bisync",
         assumptions=_BI_ASSUME, trusted_base=_BI_TB,
-        level_text="Kernel-checked theorems for all maps: a converged pair with a matching record plans nothing (idempotence of the plan); swapping the roots mirrors every decision. "
-                   "Post-state equations (A = B, archive = tree, conflict outcome = max BLAKE3 at the path and the loser at <path>.conflict-<host>-<12 hex>) are carried by the executable model and "
+        level_text="Kernel-checked WHOLE-RUN theorems for the model of `copia bisync`, for every pair of trees and every archive, under NoNameClash: `converges` (the run completes; afterwards A and B hold the same content at every path and the archive written records exactly that tree) "
+                   "and `second_run_noop` (the next run plans nothing, reports no conflict and leaves both trees as they are). For all maps: a converged pair with a matching record plans nothing; swapping the roots mirrors every decision. "
+                   "Without NoNameClash the statements are false of model and code (D10, known findings). Conflict outcome = max BLAKE3 at the path and the loser at <path>.conflict-<host>-<12 hex> is part of the model and "
                    "compared with every real run; oracles: convergence, archive = tree, an immediate real second run plans 0 actions, same final trees under scrambled mtimes and swapped roots.",
-        level_note="Partial: decision-level theorems + executable whole-run model validated against the binary.",
-        technique="Lean 4 proof + executable-model correspondence on histories + convergence/idempotence/independence oracles",
+        level_note="Trusts Lean's kernel, the hand-written model of bidir.rs (validated against the binary on every run), the harness and the sandbox. mtime independence and root-swap of whole runs are oracle-checked on the binary (the model has no mtimes; `swap_plan` covers the decisions).",
+        technique="Lean 4 proof (run + archive invariants by induction over the plan) + executable-model correspondence on histories + convergence/idempotence/independence oracles",
     ),
     "C07": dict(
         modules=["Copia.Props.C07"], namespaces=["Copia.C07"], runner="bb", bb_module="bb_bisync",
@@ -70,10 +72,11 @@ PROPS = {
     ),
     "C04": dict(
         modules=["Copia.Props.C04"], namespaces=["Copia.C04"], runner="bb", bb_module="bb_oneway",
-        assumptions=_OW_ASSUME, trusted_base=_OW_TB,
+        assumptions=_OW_ASSUME, trusted_base=_OW_TB + ["bash's ANSI-C quoting ($'…') as modelled by Quote.ansiC: named escapes decoded, unknown escapes kept, numeric/control escapes outside the model (never produced by the escaping chain — proved); cross-checked against the installed bash on every run"],
         level_text="Kernel-checked theorems for ALL trees/flags over the run model: destination after a run = (deleted if in delete; source entry with the source's whole-second mtime if in transfer; untouched otherwise), "
                    "nothing outside the plan is touched, an empty source without --delete is a no-op, and ORDER INDEPENDENCE: any completion order of the parallel transfers/deletes gives the same destination. "
-                   "With C19's theorems the plan itself is the set definition. Tie: real `copia sync -r` in all three directions (SSH stand-in) on trees with hostile names, every per-file destination state, flag sets incl. --jobs; "
+                   "With C19's theorems the plan itself is the set definition. QUOTING: `quoted_path_decodes` / `quoted_staging_decodes` — for EVERY remote path string (quotes, backslashes, newlines, $, ;, backticks) bash's ANSI-C scanner decodes the `$'…'` word the sources build "
+                   "(escaping chain regenerated from the four source files, which must agree) back to exactly the path and stops at the closing quote; the model scanner and `escape` are cross-checked against the installed bash. Tie: real `copia sync -r` in all three directions (SSH stand-in) on trees with hostile names, every per-file destination state, flag sets incl. --jobs; "
                    "predicted destination (bytes, whole-second mtime, untouched sub-second parts) and printed plan compared; oracles: source unchanged, no staging file left.",
         level_note="Model-level proof + black-box tie; the remote shell commands (cat/mv/touch/find/xargs) and tokio scheduling are trusted/abstracted (any order is proved equivalent). Non-zero exits are counted, their partial effects are not compared.",
         technique="Lean 4 proof (lookup characterisation of folds, permutation invariance) + black-box correspondence in three directions",
@@ -98,12 +101,13 @@ PROPS = {
         technique="Lean 4 proof over the run model + black-box second-run correspondence",
     ),
     "C08": dict(
-        modules=["Copia.Props.C08"], namespaces=["Copia.C08"], runner="bb", bb_module="bb_crash", timeout=3000,
+        modules=["Copia.Props.C08", "Copia.Props.C08b"], namespaces=["Copia.C08"], runner="bb", bb_module="bb_crash", timeout=3000,
         assumptions=_BI_ASSUME + ["'killed at any instant' is represented as 'before any libc call of the main thread' (strace injection); a kill inside one copy_file_range/write is covered by the staged file being opaque until renamed",
                                   "power loss is represented only by the ordering predicate fsync(staged data) → rename → record on the real trace, not by a page-cache model"],
         trusted_base=_BI_TB + ["strace (trace and signal injection)"],
-        level_text="Kernel-checked prefix theorems over the micro-step model of a run (stage/sync/publish/unlink per action, then the archive's stage/sync/bak/publish): after ANY prefix of the steps every live path holds a pre-run or a delivered "
-                   "complete version, the record is old/absent/new, and it is new only when all data steps are in the prefix and every published file had been synced. Tie (partial): the real run's mutating syscalls equal the model's step list (trace conformance) "
+        level_text="Kernel-checked WHOLE-RUN theorem `whole_run_prefix` over the micro-step model of a run (the plan's stage/sync/publish/unlink calls in plan order, then the archive's stage/sync/bak/publish), for every pair of trees, every archive and EVERY prefix length: "
+                   "no staged file is ever renamed into place unsynced, every live path holds a complete content some path held when the run started, the record is the new one only if the whole run was executed and is no longer the old one only after every data step "
+                   "(so everything it describes is flushed and renamed into place on both sides); plus the per-copy and per-record lemmas it is built from. Tie (partial): the real run's mutating syscalls equal the model's step list (trace conformance) "
                    "for 8 scenarios, and the real process is SIGKILLed before EVERY such call; post-kill trees/archive and crash recovery are checked.",
         level_note="Partial: proof of the model + syscall-trace conformance + exhaustive kill points per scenario; intra-syscall preemption and real power loss are not exhibited.",
         technique="Lean 4 proof (invariant over every prefix of the step list) + strace trace conformance + exhaustive kill-point injection",
@@ -173,12 +177,12 @@ PROPS = {
     "C16": dict(
         modules=["Copia.Props.C16"], namespaces=["Copia.C16"], runner="rust", needs_cli=False,
         assumptions=_DELTA_ASSUME + ["block sizes 0 < bs ≤ 65536 and byte-valued sources (the C17 domain) for the checksum-threading invariant",
-                                     "edit_bound (k + 2 blocks) is stated (EditBoundStatement) but not proved; it is checked on the implementation by the oracle"],
+                                     "edit_bound needs the basis length to be a multiple of the block size (as the property's `file of distinct blocks`); distinctness of the blocks turned out not to be needed"],
         trusted_base=_DELTA_TB,
         level_text="Kernel-checked theorem for ALL basis/source and ALL block sizes ≤ 65536: the delta's op list EQUALS the textbook greedy scan's (plain byte equality, no checksums) — hence no more literal bytes; "
-                   "identical files cost < one block. The proof threads C17's rolling-checksum invariant through the scan (weak hash = window checksum; signature-side hash equal for equal bytes), "
+                   "identical files cost < one block; `edit_bound`: replacing any part of a block-aligned basis by k bytes costs at most k + 2 blocks of literal data (potential-function induction over the scan). The proof threads C17's rolling-checksum invariant through the scan (weak hash = window checksum; signature-side hash equal for equal bytes), "
                    "so a checksum defect breaks it. Tie: exact op lists + literal counts vs an independent greedy reference, all eight legal block sizes, high-sum content, matches after >5000 slides.",
-        level_note="Trusts Lean's kernel, the models of the scan and both checksum types, the harness. The k+2-blocks edit bound is oracle-checked only (partial).",
+        level_note="Trusts Lean's kernel, the models of the scan and both checksum types, the harness. The edit bound is also checked on the implementation by the oracle (key edit-bound).",
         technique="Lean 4 proof (scan = textbook by induction with the Good checksum invariant from C17) + differential correspondence",
     ),
     "C17": dict(
@@ -203,10 +207,12 @@ PROPS = {
             "paths are valid UTF-8 and normalised relative paths (what `discover_local_files` / `find` produce): `to_string_lossy` and non-canonical PathBuf keys such as `./k` are outside the model",
             "glob_match is modelled in suffix form (a data refinement of the index loop with the same branch order); the index loop itself is tied by the exhaustive correspondence",
         ],
-        trusted_base=["src/bin/copia/plan.rs and meta.rs are compiled into the harness unchanged via #[path]"],
+        trusted_base=["src/bin/copia/plan.rs and meta.rs are compiled into the harness unchanged via #[path]",
+                      "GNU find's -printf directives %s, %T@, %p and escapes \\t, \\0 as modelled by Meta.findPrintf (cross-checked against the installed find on every run)"],
         level_text="Kernel-checked theorems for ALL patterns/texts (glob_match ⇔ wildcard semantics, incl. fuel sufficiency), ALL maps/exclude predicates "
-                   "(transfer/skipped/delete = their set definitions, sorted, duplicate-free) and the quick-check decision; the listing parser is modelled and tied "
-                   "by differential runs (its format round-trip theorem: see DESIGN.md). Tie: every (pattern,text) pair up to length 4/5 over {a,b,*,?,.,/} is run on the real "
+                   "(transfer/skipped/delete = their set definitions, sorted, duplicate-free) and the quick-check decision; `parse_format`: for ANY files with distinct non-empty NUL-free paths (tabs, newlines, anything else), u64 sizes and i64 seconds, "
+                   "the listing `find -printf <format regenerated from meta.rs>` writes is parsed back into exactly the (path, size, whole-second mtime) map (`source_format_is_modelled` proves the source's format string produces the record shape). "
+                   "Tie: real `find` on real trees (tabs/newlines in names, pre-epoch and sub-second mtimes): every record must equal the model's rendering and the real parser must return the files; every (pattern,text) pair up to length 4/5 over {a,b,*,?,.,/} is run on the real "
                    "glob_match against the declarative semantics, the model on a fixed sample of those plus all disagreements; all metadata relations over a 3-path universe for build_plan.",
         level_note="Trusts Lean's kernel (axioms propext, Classical.choice, Quot.sound), the hand-written models and the harness.",
         technique="Lean 4 proof (soundness/completeness of the backtracking matcher by induction on fuel with a measure; list lemmas for the planner) + exhaustive differential correspondence",
